@@ -2,9 +2,9 @@
    processes and hands over what it saw:
      DcRuns      the digests of the executions of a scenario in which no listed finding is triggered
                  (the model, C06_exec_oracle_independent, says: all equal);
-     DcFirstErr  a governance request given as the error code of each entry (None = acceptable) and the
-                 error code observed in each execution (the model, nd_first_error over some iteration order,
-                 says: no error iff no entry has one; otherwise the error of one of the failing entries). *)
+     DcFirstErr  a governance request given as the error code of each entry in sorted key order (None = acceptable)
+                 and the error code observed in each execution (the model: the loops visit the keys in sorted
+                 order, so every execution reports the first failing entry of that order). *)
 From ZC Require Import Base.Corr Model.Determinism.
 Open Scope Z_scope.
 
@@ -20,10 +20,7 @@ Definition det_check (c : det_case) : bool :=
   | DcRuns [] => true
   | DcRuns (d :: tl) => forallb (Z.eqb d) tl
   | DcFirstErr errs obs =>
-      (* the outcomes of nd_first_error over the permutations of errs *)
-      let expected_none := opt_z_eqb (nd_first_error (option Z) (fun e => e) errs) None in
-      forallb (fun o => match o with
-                        | None => expected_none
-                        | Some _ => (negb expected_none && existsb (opt_z_eqb o) errs)%bool
-                        end) obs
+      (* errs is given in sorted key order, the order the repaired loops use: every execution reports the first one *)
+      let expected := nd_first_error (option Z) (fun e => e) errs in
+      forallb (opt_z_eqb expected) obs
   end.
